@@ -229,9 +229,8 @@ func TestC11(t *testing.T) {
 							c.LData.TPDU.APCI &= 3
 							c.LData.TPDU.Data = nil
 						}
-						if !numbered {
-							c.LData.TPDU.Seq = 0
-						}
+						// an unnumbered unit has no sequence number on the wire: whatever the value's field
+						// holds (e.g. left over in a re-used struct), bits 5..2 of the TPCI octet are zero
 						do(c11Plan{Mode: "value", Cemi: c})
 					}
 				}
@@ -301,8 +300,8 @@ func TestC11(t *testing.T) {
 		if !c.LData.TPDU.Control && rapid.IntRange(0, 5).Draw(rt, "empty-payload") == 0 {
 			c.LData.TPDU.Data = nil
 		}
-		if !c.LData.TPDU.Numbered {
-			c.LData.TPDU.Seq = 0
+		if !c.LData.TPDU.Numbered && rapid.Bool().Draw(rt, "stale-seq") {
+			c.LData.TPDU.Seq = uint8(rapid.IntRange(1, 15).Draw(rt, "stale-seq-value")) // must not reach the wire
 		}
 		ref, _ := common.RefEncodeCemi(c)
 		rec.NonTrivial(common.Hash64(ref))
